@@ -39,6 +39,12 @@ def gen_ops(tier, rng):
         for kind in ["rand", "sing", "sparse", "swap"]:
             for _ in range(1 if tier == "quick" else 6):
                 ops.append((f"minv {n} {rng.randrange(1, 1<<30)} {kind}", {"cat": "matrix-invert:" + kind}))
+    # matrix.SubMatrix on arbitrary windows (the in-package callers only reach two of them)
+    for n in [1, 2, 3, 5, 8, 13] + ([21, 40] if tier == "thorough" else []):
+        for _ in range(3 if tier == "quick" else 12):
+            r0 = rng.randrange(n); r1 = rng.randrange(r0 + 1, n + 1)
+            c0 = rng.randrange(n); c1 = rng.randrange(c0 + 1, n + 1)
+            ops.append((f"msub {n} {rng.randrange(1, 1<<30)} {r0} {c0} {r1} {c1}", {"cat": "matrix-submatrix"}))
     shapes = [(1, 2), (2, 3), (3, 5), (4, 7), (5, 8), (10, 14), (17, 20), (12, 24), (30, 40)] + ([(50, 70), (100, 120)] if tier == "thorough" else [])
     for (d, t) in shapes:
         for kind in ["default", "cauchy", "par1", "vandermonde"]:
@@ -56,7 +62,7 @@ def gen_ops(tier, rng):
 
 
 def flag_check(line, meta, flags):
-    if line.split()[0] in ("minv", "bmat", "fn") and flags.get("gen") != "1":
+    if line.split()[0] in ("minv", "msub", "bmat", "fn") and flags.get("gen") != "1":
         return "the code regenerated from the Go source (RSV.Gen.MatrixGo / RSV.Gen.Funcs) disagrees with the model on this input"
     return None
 
